@@ -14,7 +14,8 @@ import covlib
 from common import Check, Drv, quiet
 
 THEOREMS = ["Pyvsc.C10.compact_denotes", "Pyvsc.C10.compact_sorted", "Pyvsc.C10.subtract_denotes",
-            "Pyvsc.C10.sample_counts", "Pyvsc.C10.sample_counts_ignore", "Pyvsc.C10.leaf_hit_iff"]
+            "Pyvsc.C10.sample_counts", "Pyvsc.C10.sample_counts_ignore", "Pyvsc.C10.leaf_hit_iff",
+            "Pyvsc.C10.mkCollection_partition"]
 
 
 def strip(spec):
